@@ -74,6 +74,17 @@ CHECKS = {
    design_ref='5 (C15), 3.3',
    note=TB + ' Strings are abstract tokens (only comparisons with literals, parse::<uN>, emptiness are modelled); from_fen/find_move/make_move/thread::spawn are opaque in (b); FEN arguments assumed valid as the property says.',
    technique='symbolic execution of rustc MIR into z3 over abstract token strings; panic-site obligations; bounded line length; native replay of the concretised line / closed-stdin run'),
+ 'C01': dict(
+   category='proof',
+   text=('Lemma decomposition, every lemma decided by z3 over all inputs of its domain, the real code run from MIR: L0 Vec<Square>::from(Bitboard) enumerates set bits in order; '
+         'L2 get_attacked_squares / is_in_check equal a reference computed from each target square outward, for every position satisfying the invariant; '
+         'L3 castling_ability equals the rule (turn, right, empty squares, unattacked king path); L4 for each of the 768 (kind, colour, square) cases Kind::get_moveset equals the '
+         'reference pseudo-legal records as a bag (sound, complete, duplicate-free: double push, en passant, four promotions, castling records); L5 get_all_moves visits 0..63, expands exactly own pieces, '
+         'fills captured_piece from the victim square; L6 is_legal_move is Err iff the mover is in check after make_move; L7 get_legal_moves is the filter. '
+         'Composition of the lemmas (with C03, C06) into "legal set exact" is a documented argument, not a solver query.'),
+   design_ref='5 (C01), 4.3',
+   note=TB + ' Slider lookups replaced by the ray-walk reference proven equal in C06; L0 summary used in L4; concrete reference rules are additionally compared with the native engine on the repository FENs.',
+   technique='symbolic execution of rustc MIR into z3 bit-vector terms; lemma decomposition with summaries; 1.2k unsat queries; native replay judged by a mailbox reference'),
 }
 NA = {
  'C10': 'quantifies over OS-thread interleavings (relaxed AtomicBool + JoinHandle::is_finished); MIR has no thread semantics and Kani does not model concurrency - outside solver-based checking of the real code (DESIGN.md 6)',
